@@ -13,6 +13,7 @@ import (
 	"log/slog"
 	"os"
 	"path/filepath"
+	"sync"
 	"time"
 
 	"reservoir/webserver/auth"
@@ -100,9 +101,58 @@ func main() {
 		total++
 		dist["plain-logout"]++
 	}
+	// 4. many users log out at the same moment while others log in: every logout is final, every new session lives
+	{
+		auth.VerifResetSessions()
+		n := 8000
+		if *flagTier == "thorough" {
+			n = 40000
+		}
+		sess := make([]*auth.Session, n)
+		for i := range sess {
+			sess[i] = auth.CreateSession(int64(i + 10))
+		}
+		var wg sync.WaitGroup
+		const G = 16
+		fresh := make([][]*auth.Session, G)
+		for g := 0; g < G; g++ {
+			wg.Add(1)
+			go func(g int) {
+				defer wg.Done()
+				for i := g; i < n; i += G {
+					sess[i].Destroy()
+					if i%7 == 0 {
+						fresh[g] = append(fresh[g], auth.CreateSession(int64(1000000+i)))
+					}
+				}
+			}(g)
+		}
+		wg.Wait()
+		still, lost := 0, 0
+		for _, x := range sess {
+			if _, alive := auth.GetSession(x.ID); alive {
+				still++
+			}
+		}
+		for _, l := range fresh {
+			for _, x := range l {
+				if _, alive := auth.GetSession(x.ID); !alive {
+					lost++
+				}
+			}
+		}
+		if still > 0 {
+			failures = append(failures, failure{"mass-logout", "0s", fmt.Sprintf("%d of %d sessions are still accepted after their logout completed (16 users logging out at once)", still, n)})
+		}
+		if lost > 0 {
+			failures = append(failures, failure{"mass-logout", "0s", fmt.Sprintf("%d sessions created while others logged out are not accepted", lost)})
+		}
+		total++
+		dist["mass-logout"]++
+	}
 	out := map[string]any{
 		"harness": "sessrace", "seed": *flagSeed, "tier": *flagTier, "total": total, "distinct": total, "distinct_nontrivial": total,
-		"rule":         "logout interleaved with lookups of the same session at ages 0-59 min (outside and inside the 10-minute extension window): logout holding the record from before a concurrent extension; logout landing inside a lookup between its read and the publication of the extension (yield point session.beforeExtend); plain logout as control",
+		"rule":         "logout interleaved with lookups of the same session at ages 0-59 min (outside and inside the 10-minute extension window): logout holding the record from before a concurrent extension; logout landing inside a lookup between its read and the publication of the extension (yield point session.beforeExtend); plain logout as control; mass logout (8000 sessions destroyed by 16 goroutines while new sessions are created): every logout final, every new session live",
 		"distribution": map[string]any{"scenario": dist},
 		"samples":      []any{map[string]any{"scenario": "stale-handle-logout", "age_at_lookup": "55m"}},
 		"files":        []string{}, "readable": []any{},
